@@ -70,12 +70,59 @@ fn shape(e: &Expr, sh: &mut Shape) {
     });
 }
 
+/// Shapes around which a "simplifying" rewrite would be tempting and wrong at the edges of the
+/// 64-bit range: `a - -b / c`, `(a * c) / c`, `a / -1`, `(a + b) - b`, ... over boundary operands.
+fn identity_template(ch: &mut Ch, env: &ExprEnv) -> Expr {
+    let edge = |ch: &mut Ch| -> Expr {
+        match ch.weighted(&[3, 2, 1, 1, 1, 3]) {
+            0 => Expr::konst(i64::MIN),
+            1 => Expr::konst(i64::MAX),
+            2 => Expr::konst(-1),
+            3 => Expr::konst(0),
+            4 => Expr::konst(1),
+            _ => {
+                if env.vars.is_empty() {
+                    Expr::konst(*ch.choose(&BOUNDARY))
+                } else {
+                    Expr::Var(env.vars[ch.upto(env.vars.len())].0.clone())
+                }
+            }
+        }
+    };
+    let small = |ch: &mut Ch| Expr::konst(*ch.choose(&[2i64, 3, -2, 7, -1, 1, 5, -3]));
+    let neg = |e: Expr| Expr::un(UnOp::Neg, e);
+    let grp = |e: Expr| Expr::Group(Box::new(e));
+    let (a, b, c) = (edge(ch), edge(ch), small(ch));
+    match ch.upto(20) {
+        0 => Expr::bin(BinOp::Sub, a, Expr::bin(BinOp::Div, neg(b), c)),
+        1 => Expr::bin(BinOp::Add, a, Expr::bin(BinOp::Rem, neg(b), c)),
+        2 => Expr::bin(BinOp::Sub, a, Expr::bin(BinOp::Mul, neg(b), c)),
+        3 => Expr::bin(BinOp::Div, neg(b), c),
+        4 => neg(grp(Expr::bin(BinOp::Div, b, c))),
+        5 => Expr::bin(BinOp::Sub, a, grp(Expr::bin(BinOp::Sub, Expr::lit(0), b))),
+        6 => Expr::bin(BinOp::Div, grp(Expr::bin(BinOp::Mul, a, c.clone())), c),
+        7 => Expr::bin(BinOp::Shr, grp(Expr::bin(BinOp::Shl, a, Expr::lit(1))), Expr::lit(1)),
+        8 => Expr::bin(BinOp::Sub, grp(Expr::bin(BinOp::Add, a, b.clone())), b),
+        9 => Expr::un(UnOp::BitNot, neg(b)),
+        10 => neg(Expr::un(UnOp::BitNot, b)),
+        11 => Expr::bin(BinOp::Mul, a, Expr::konst(-1)),
+        12 => Expr::bin(BinOp::Div, a, Expr::konst(-1)),
+        13 => Expr::bin(BinOp::Rem, a, Expr::konst(-1)),
+        14 => Expr::bin(BinOp::Lt, Expr::bin(BinOp::Sub, a, b), Expr::lit(0)),
+        15 => Expr::un(UnOp::Not, Expr::un(UnOp::Not, b)),
+        16 => Expr::bin(BinOp::Sub, a, neg(b)),
+        17 => Expr::bin(BinOp::Add, a, neg(b)),
+        18 => Expr::bin(BinOp::Add, Expr::bin(BinOp::Mul, grp(Expr::bin(BinOp::Div, a.clone(), c.clone())), c.clone()), Expr::bin(BinOp::Rem, a, c)),
+        _ => Expr::bin(BinOp::Sub, Expr::bin(BinOp::Sub, a, neg(b)), neg(c)),
+    }
+}
+
 impl Property for C08 {
     fn id(&self) -> &'static str {
         "C08"
     }
     fn rule(&self) -> &'static str {
-        "profile `expr`: straight-line programs `let`s + 8 rows `0 X X (expr)`; expression trees of depth <= 6 over all 16 binary and 3 unary operators, ite, literals in every radix, variables bound to 64-bit boundary values, device outputs (boundary palette), equal-precedence chains, boundary shift counts, hazards only in unselected ite branches (division by zero, signExt, random, and a variable that is bound only in a `while(0)` body and so has no value at run time); printed with minimal parentheses by the stated precedence table or redundant groups. Oracle: independent evaluator on the generating tree vs the untruncated expected value of a 64-bit output column. Non-trivial: an expression with >= 3 operators spanning >= 2 precedence levels, or an equal-precedence non-commutative chain, or unary under binary; distinct by source text."
+        "profile `expr`: programs of `let`s + 8 rows `0 X X (expr)` (the expression sits in the row, or in a `let` before it, or in a `let` inside a while body that runs once); expression trees of depth <= 6 over all 16 binary and 3 unary operators, ite, literals in every radix, variables bound to 64-bit boundary values, device outputs (boundary palette), equal-precedence chains, boundary shift counts, one row in six from a list of 20 shapes that invite a wrong algebraic rewrite at the edges of the 64-bit range (`a - -b / c`, `(a * c) / c`, `a / -1`, `(a + b) - b`, `(a / c) * c + a % c`, ... over MIN, MAX, -1, 0, 1 and the variables), one program in forty with 48 rows that are all `ite`s; hazards only in unselected ite branches (division by zero, signExt, random, and a variable that is bound only in a `while(0)` body and so has no value at run time); printed with minimal parentheses by the stated precedence table or redundant groups. Oracle: a program the parser rejects while it accepts the same program with every expression replaced by 0 is a violation (a valid expression was turned down); independent evaluator on the generating tree vs the untruncated expected value of a 64-bit output column. Non-trivial: an expression with >= 3 operators spanning >= 2 precedence levels, or an equal-precedence non-commutative chain, or unary under binary; distinct by source text."
     }
     fn cases(&self, tier: Tier) -> u64 {
         match tier {
@@ -87,7 +134,7 @@ impl Property for C08 {
         [700, 8, 8]
     }
     fn required_classes(&self) -> Vec<&'static str> {
-        vec!["chain", "unary-under-binary", "levels>=3", "lazy-hazard", "lazy-unassigned-variable", "device-read", "radix-nondecimal", "level-1", "level-2", "level-3", "level-4", "level-5", "level-6", "level-7", "level-8"]
+        vec!["chain", "unary-under-binary", "levels>=3", "lazy-hazard", "lazy-unassigned-variable", "via-let", "via-let-in-while", "identity-template", "long-program", "device-read", "radix-nondecimal", "level-1", "level-2", "level-3", "level-4", "level-5", "level-6", "level-7", "level-8"]
     }
     fn assumptions(&self) -> Vec<&'static str> {
         vec!["the evaluator in harness/src/ri.rs (eval_binop/eval_unop/eval_expr) renders the C08 statement correctly"]
@@ -124,17 +171,47 @@ impl Property for C08 {
             values.insert(name.to_string(), v);
         }
         let outs = vec!["Q".to_string(), "R".to_string()];
-        let nrows = 8;
+        // one program in forty is long: 48 rows, each an `ite` (what a parser accumulates over a
+        // whole text shows only then)
+        let long = ch.chance(1, 40);
+        out.class_if(long, "long-program");
+        let nrows = if long { 48 } else { 8 };
         let mut exprs = vec![];
         for id in 0..nrows {
             let env = ExprEnv { vars: &vars, outs: &outs, maybe: &[], cfg: &cfg };
             let d = 1 + ch.upto(cfg.max_depth as usize) as u32;
-            let e = gen_expr(&mut ch, d, &env);
+            let e = if long {
+                let dd = 1 + ch.upto(2) as u32;
+                let inner = gen_expr(&mut ch, dd, &env);
+                Expr::Ite(Box::new(Expr::lit(1 + ch.upto(3) as u64)), Box::new(inner), Box::new(Expr::lit(0)))
+            } else if ch.chance(1, 6) {
+                out.class("identity-template");
+                identity_template(&mut ch, &env)
+            } else {
+                gen_expr(&mut ch, d, &env)
+            };
+            // the value reaches the row directly, or through a `let` (the same expression in
+            // statement position), or as the bound-like operand of a loop that runs once
+            let entry = match ch.weighted(&[4, 2, 1]) {
+                0 => Entry::Paren(e.clone()),
+                1 => {
+                    stmts.push(Stmt::Let("tv".into(), e.clone()));
+                    out.class("via-let");
+                    Entry::Paren(Expr::var("tv"))
+                }
+                _ => {
+                    // `while` condition position: `let tw = 1; while(tw) let tv = <e>; let tw = 0; end while`
+                    stmts.push(Stmt::Let("tw".into(), Expr::lit(1)));
+                    stmts.push(Stmt::While(Expr::var("tw"), vec![Stmt::Let("tv".into(), e.clone()), Stmt::Let("tw".into(), Expr::lit(0))]));
+                    out.class("via-let-in-while");
+                    Entry::Paren(Expr::var("tv"))
+                }
+            };
             stmts.push(Stmt::Row(id, vec![
                 Entry::Num(0, Radix::Dec),
                 Entry::X(true),
                 Entry::X(true),
-                Entry::Paren(e.clone()),
+                entry,
             ]));
             exprs.push(e);
         }
@@ -170,6 +247,38 @@ impl Property for C08 {
         }
         out.nontrivial = any_nt;
 
+        // A parser that turns down this program although it accepts the same program with every
+        // expression replaced by `0` has turned down a valid expression: that is this property's
+        // business (any other rejection is not: the case is discarded).
+        if let Err(LoadErr::Parse(m)) = load(&text, &sigs) {
+            fn zero_exprs(bl: &mut [Stmt]) {
+                for st in bl {
+                    match st {
+                        Stmt::Let(_, e) => *e = Expr::lit(0),
+                        Stmt::Row(_, es) => {
+                            for en in es.iter_mut() {
+                                if let Entry::Paren(e) = en {
+                                    if !matches!(e, Expr::Var(_)) {
+                                        *e = Expr::lit(0)
+                                    }
+                                }
+                            }
+                        }
+                        Stmt::While(_, inner) => zero_exprs(inner),
+                        _ => {}
+                    }
+                }
+            }
+            let mut control = prog.clone();
+            zero_exprs(&mut control.stmts);
+            if load(&canonical(&control).text, &sigs).is_ok() {
+                out.fail(
+                    "c08:valid-expression-rejected",
+                    format!("the parser rejects this program ({m}) but accepts the same program with every expression replaced by 0: a valid expression was turned down"),
+                );
+                return out;
+            }
+        }
         let Some(tc) = load_wellformed(&mut out, "c08", &text, &sigs) else {
             return out;
         };
